@@ -428,6 +428,8 @@ func errShort(err error) string {
 
 // ---------------------------------------------------------------- classification helpers
 
+var lateralNL = regexp.MustCompile(`\blateral[ \t]*[\n\r][\s]*\(`)
+
 var rpRe = regexp.MustCompile(`read_parquet\('([^']*)', union_by_name=true\)`)
 
 func esc(s string) string {
@@ -453,18 +455,30 @@ func fastEligible(s string) bool {
 }
 
 func classOf(b *qb, hdr string) string {
-	if b.hazard != "" {
+	if b.hazard == "soup" || b.hazard == "cache-collision" {
 		return b.hazard
 	}
+	// structural classes first (they can co-occur with any generated shape)
 	text := render(b.toks)
 	if n := len(b.toks); n >= 2 && b.toks[n-2].k == 'b' && len(b.toks[n-1].s) == 1 {
 		return "comment-before-last-byte"
 	}
-	for i := 0; i+2 < len(b.toks); i++ {
-		if b.toks[i].k == 'w' && strings.EqualFold(b.toks[i].s, "lateral") && b.toks[i+1].k == 's' &&
-			strings.Trim(b.toks[i+1].s, " \t") != "" && b.toks[i+2].s == "(" {
-			return "lateral-newline"
+	// the text the reference patterns see: literals masked, comments stripped
+	var sb strings.Builder
+	for _, t := range b.toks {
+		switch t.k {
+		case 'l', 'q':
+			sb.WriteString("__X__")
+		case 'b':
+			sb.WriteString(" ")
+		case 'c':
+		default:
+			sb.WriteString(t.s)
 		}
+	}
+	stripped := strings.ToLower(sb.String())
+	if lateralNL.MatchString(stripped) {
+		return "lateral-newline"
 	}
 	if hdr != "" {
 		nbase := 0
@@ -473,12 +487,22 @@ func classOf(b *qb, hdr string) string {
 				nbase++
 			}
 		}
+		if fastEligible(text) {
+			l := strings.ToLower(text)
+			rest := strings.TrimLeft(l[strings.Index(l, "from ")+5:], " \t\n")
+			if strings.HasPrefix(rest, "\r") {
+				return "fastpath-cr"
+			}
+		}
 		if fastEligible(text) && (nbase > 1 || len(b.refs) > nbase) {
 			return "fastpath-partial"
 		}
-		if b.feats["cte"] && !strings.Contains(strings.ToLower(text), "with ") {
+		if b.feats["cte"] && !strings.Contains(stripped, "with ") {
 			return "with-newline"
 		}
+	}
+	if b.hazard != "" {
+		return b.hazard
 	}
 	for _, f := range []string{"cte", "subquery", "fn-from", "join", "db-qualified", "quoted-name", "comment"} {
 		if b.feats[f] {
